@@ -152,21 +152,20 @@ def rand_gen(seed, **kw):
     return rand_spec(seed, **kw)
 
 
-# corpus: templates the repository itself exercises (validated on the unchanged tree)
+# corpus: templates the repository itself exercises (tests/unit/test_asynchronous.py; validated on the unchanged tree)
 def corpus():
     out = []
-    # the repo's 4-node test topology (tests/unit/conftest style): world -> sensor -> agent -> actuator -> world (skip)
-    for bs in (False, True):
-        out.append(dict(seed=-1, supervisor="agent", nodes=[
-            dict(name="world", rate=20, delay=["det", 0.01], scheduling="F", advance=False),
-            dict(name="sensor", rate=20, delay=["det", 0.01], scheduling="F", advance=False),
-            dict(name="agent", rate=10, delay=["det", 0.01], scheduling="F", advance=bs),
-            dict(name="actuator", rate=20, delay=["det", 0.01], scheduling="F", advance=bs),
+    for sched, buf in (("F", True), ("P", True), ("F", False)):
+        out.append(dict(seed=-1, supervisor="node1", nodes=[
+            dict(name="node1", rate=10, delay=["det", 0.01], scheduling=sched, advance=False),
+            dict(name="node2", rate=11, delay=["det", 0.01], scheduling=sched, advance=False),
+            dict(name="node3", rate=12, delay=["det", 0.01], scheduling=sched, advance=False),
+            dict(name="node4", rate=13, delay=["det", 0.01], scheduling=sched, advance=False),
         ], conns=[
-            dict(out="world", inp="sensor", window=1, skip=False, blocking=False, jitter="L", delay=["det", 0.01]),
-            dict(out="sensor", inp="agent", window=3, skip=False, blocking=bs, jitter="B" if not bs else "L", delay=["det", 0.01]),
-            dict(out="agent", inp="actuator", window=1, skip=False, blocking=bs, jitter="L", delay=["det", 0.01]),
-            dict(out="actuator", inp="world", window=1, skip=True, blocking=False, jitter="L", delay=["det", 0.01]),
+            dict(out="node2", inp="node1", window=1, skip=False, blocking=False, jitter="L", delay=["det", 0.01]),
+            dict(out="node3", inp="node2", window=2, skip=False, blocking=False, jitter="B" if buf else "L", delay=["det", 0.01]),
+            dict(out="node4", inp="node3", window=2, skip=False, blocking=True, jitter="L", delay=["det", 0.01]),
+            dict(out="node1", inp="node4", window=3, skip=True, blocking=True, jitter="L", delay=["det", 0.01]),
         ]))
     return out
 
